@@ -11,7 +11,7 @@ from sa.model import AnalysisError, CallSite, FuncInfo, Program, dotted, norm, w
 from sa.report import Context
 from sa.rules import c07, common
 from sa.rules.common import FSH, PM
-from sa.util import enumerate_paths, forward_taint, func_key, guards_of, names_read, returns_of, site_for, where
+from sa.util import _atoms as _facts, enumerate_paths, forward_taint, func_key, guards_of, names_read, returns_of, site_for, where
 
 EXPLANATION = (
     "Decides, from /repo's current source: R11a every failure line passes the pragma filter (single output path) and "
@@ -48,24 +48,73 @@ def r11a(ctx: Context) -> None:
         t.id for n in walk_local(logger.node) if isinstance(n, ast.Assign) and ".rule_id" in norm(n.value)
         for t in n.targets if isinstance(t, ast.Name)
     }
-    if len(early) < 2:
-        rule.fail(func_key(logger) + ": filters", where(logger), f"only {len(early)} suppression exit(s) before the print: disable-next-line or disable-num-lines is no longer honoured")
+    line_names = {
+        t.id for n in walk_local(logger.node) if isinstance(n, ast.Assign) and ".line_number" in norm(n.value)
+        for t in n.targets if isinstance(t, ast.Name)
+    }
+
+    def mentions(node: ast.AST, names: Set[str], attr: str) -> bool:
+        return any((isinstance(sub, ast.Name) and sub.id in names) or (isinstance(sub, ast.Attribute) and sub.attr == attr) for sub in ast.walk(node))
+
+    def expand(node: ast.AST, polarity: bool) -> List[List[Tuple[ast.AST, bool]]]:
+        """Disjunctive normal form of one guard fact: ``a or b`` gives two alternatives,
+        ``any(c for ... in t if d)`` the conjunction of c and d."""
+        if polarity and isinstance(node, ast.BoolOp) and isinstance(node.op, ast.Or):
+            return [alt for value in node.values for alt in conj(_facts(value, True))]
+        if polarity and isinstance(node, ast.Call) and isinstance(node.func, ast.Name) and node.func.id == "any" and len(node.args) == 1 and isinstance(node.args[0], ast.GeneratorExp):
+            gen = node.args[0]
+            inner = _facts(gen.elt, True) + [f for comp in gen.generators for cond in comp.ifs for f in _facts(cond, True)]
+            return conj(inner)
+        return [[(node, polarity)]]
+
+    def conj(facts: List[Tuple[ast.AST, bool]]) -> List[List[Tuple[ast.AST, bool]]]:
+        alternatives: List[List[Tuple[ast.AST, bool]]] = [[]]
+        for node, polarity in facts:
+            options = expand(node, polarity)
+            alternatives = [alt + option for alt in alternatives for option in options][:32]
+        return alternatives
+
+    kinds: Set[str] = set()
     for ret in early:
-        facts = [(norm(t), p, t) for t, p in guards_of(logger.node, ret)]
-        positive = [(text, node) for text, pol, node in facts if pol]
-        line_test = [text for text, node in positive if "line_number" in text]
-        id_test = [text for text, node in positive if isinstance(node, ast.Compare) and isinstance(node.ops[0], ast.In) and (norm(node.left) in id_names or ".rule_id" in norm(node.left))]
-        key = func_key(logger, ret) + f" @{'+'.join(sorted(t for t, _ in positive))[:80]}"
-        if not line_test or not id_test:
-            rule.fail(key, where(logger, ret), f"a failure is suppressed under {[t for t, _ in positive]}: the suppression must depend on both the failure's line and its rule id")
-            continue
-        rule.ok(key, "line test and rule-id membership")
-        for text, node in positive:
-            if isinstance(node, ast.Compare) and len(node.ops) == 2 and "line_number" in norm(node.comparators[0]):
-                if all(isinstance(op, ast.LtE) for op in node.ops):
-                    rule.ok(func_key(logger, node), "inclusive range test")
+        for alternative in conj(list(guards_of(logger.node, ret))):
+            positive = [(norm(node), node) for node, pol in alternative if pol]
+            negative = [(norm(node), node) for node, pol in alternative if not pol]
+            line_test = [node for text, node in positive if mentions(node, line_names, "line_number")]
+            id_test = [node for text, node in positive if isinstance(node, ast.Compare) and isinstance(node.ops[0], ast.In) and mentions(node.left, id_names, "rule_id")]
+            key = func_key(logger, ret) + f" @{'+'.join(sorted(t for t, _ in positive))[:80]}"
+            if not line_test or not id_test:
+                rule.fail(key, where(logger, ret), f"a failure is suppressed under {[t for t, _ in positive]}: the suppression must depend on both the failure's line and its rule id")
+                continue
+            # the two tables are consulted independently of each other
+            blocking = [text for text, node in negative if mentions(node, line_names | id_names, "line_number") or "pragma" in text.lower()]
+            bounds: Dict[str, List[Tuple[bool, ast.AST]]] = {"lower": [], "upper": []}
+            for node in line_test:
+                if not isinstance(node, ast.Compare):
+                    continue
+                operands = [node.left] + list(node.comparators)
+                for left, op, right in zip(operands, node.ops, operands[1:]):
+                    left_is_line, right_is_line = mentions(left, line_names, "line_number"), mentions(right, line_names, "line_number")
+                    if isinstance(op, ast.In) and left_is_line:
+                        kinds.add("table")
+                    elif isinstance(op, (ast.Lt, ast.LtE, ast.Gt, ast.GtE)) and left_is_line != right_is_line:
+                        ascending = isinstance(op, (ast.Lt, ast.LtE))
+                        side = "lower" if right_is_line == ascending else "upper"
+                        bounds[side].append((isinstance(op, (ast.LtE, ast.GtE)), node))
+            if bounds["lower"] and bounds["upper"]:
+                kinds.add("range")
+            if blocking:
+                rule.fail(key + " [independent]", where(logger, ret), f"this suppression is consulted only when not ({'; '.join(blocking)}): a line covered by both kinds of pragma is filtered by one of them only")
+                continue
+            rule.ok(key, "line test and rule-id membership")
+            if bounds["lower"] and bounds["upper"]:
+                strict = [node for side in bounds.values() for inclusive, node in side if not inclusive]
+                if strict:
+                    rule.fail(func_key(logger, strict[0]), where(logger, strict[0]), f"range test '{norm(strict[0])}' is not inclusive on both ends while the compiler stores the inclusive range (line+1, line+N)")
                 else:
-                    rule.fail(func_key(logger, node), where(logger, node), f"range test '{text}' is not inclusive on both ends while the compiler stores the inclusive range (line+1, line+N)")
+                    rule.ok(func_key(logger, bounds["lower"][0][1]), "inclusive range test")
+    for kind, text in (("table", "disable-next-line (line table)"), ("range", "disable-num-lines (range list)")):
+        if kind not in kinds:
+            rule.fail(func_key(logger) + f": filters [{kind}]", where(logger), f"no suppression exit before the print consults the {text}: that pragma is no longer honoured")
     # rule id compared in one case on both sides
     lowered = any(isinstance(n, ast.Assign) and ".rule_id.lower()" in norm(n.value) and any(isinstance(t, ast.Name) and t.id in id_names for t in n.targets) and n.lineno < (early[0].lineno if early else 10**9) for n in walk_local(logger.node))
     if lowered:
@@ -227,27 +276,66 @@ def r11c(ctx: Context) -> None:
     compiler = prog.method(PM, "compile_pragmas")
     reporter = prog.method(PSC, "report_on_triggered_rules")
 
+    collectors = [prog.method(PM, name) for name in ("next_token", "next_line", "completed_file")]
+
     def event_of(func: FuncInfo, site: CallSite) -> Optional[str]:
         if compiler in site.targets:
             return "P"
         if reporter in site.targets:
             return "R"
+        if any(c in site.targets for c in collectors):
+            return "F"  # a callback through which rules record failures
         return None
 
-    spec = Spec(0, {(0, "P"): 1, (0, "R"): 2, (1, "R"): 2, (2, "R"): 2}, accept_normal={2}, accept_raise={0, 1, 2}, names={0: "nothing yet", 1: "pragmas compiled", 2: "reported"})
+    # Failures are collected by the token / line / completion callbacks and printed by the
+    # reporter - also by the reporter call in the handler of the scan when a callback raises.
+    # The tables must therefore be filled before the first failure can be collected: no path
+    # may compile after a collecting callback, and none may report twice out of order.
+    spec = Spec(
+        0,
+        {(0, "P"): 1, (1, "F"): 1, (0, "F"): 2, (2, "F"): 2, (0, "R"): 3, (1, "R"): 3, (2, "R"): 3, (3, "R"): 3},
+        accept_normal={3}, accept_raise={0, 1, 2, 3},
+        names={0: "nothing yet", 1: "pragmas compiled", 2: "failures collected without compiling (no pragma token)", 3: "reported"},
+    )
     order = EventOrder(prog, event_of, raising=None)
     scan = prog.method(FSH, "__scan_file")
     witness = order.check(scan, spec)
     key = func_key(scan) + ": compile before report"
     if witness is None:
-        rule.ok(key, "no path reports before compiling")
+        rule.ok(key, "no path compiles pragmas after a failure-collecting callback or after the report")
     else:
-        rule.fail(key, where(scan), f"failures can be reported before the document's pragmas are compiled: {witness['message']}", list(witness["steps"]))  # type: ignore[arg-type]
+        rule.fail(key, where(scan), f"failures can be collected or reported before the document's pragmas are compiled (a callback that raises then reports them unfiltered): {witness['message']}", list(witness["steps"]))  # type: ignore[arg-type]
+
     # compile is guarded only by 'the last token is the pragma token'
+    def pragma_guard(func: FuncInfo, test: ast.AST, depth: int = 0) -> bool:
+        text = norm(test)
+        if "is_pragma" in text or text == "actual_tokens":
+            return True
+        name = test
+        if isinstance(test, ast.Compare) and len(test.ops) == 1 and isinstance(test.ops[0], ast.IsNot) and isinstance(test.comparators[0], ast.Constant) and test.comparators[0].value is None:
+            name = test.left
+        if isinstance(name, ast.Name) and depth < 3:
+            # a local that is None / False unless assigned under the pragma-token test
+            seen = False
+            for node in walk_local(func.node):
+                targets = node.targets if isinstance(node, ast.Assign) else [node.target] if isinstance(node, ast.AnnAssign) and node.value is not None else []
+                if not any(isinstance(t, ast.Name) and t.id == name.id for t in targets):
+                    continue
+                value = node.value  # type: ignore[union-attr]
+                if isinstance(value, ast.Constant) and not value.value:
+                    continue
+                facts = guards_of(func.node, node)
+                if not any(pol and pragma_guard(func, fact, depth + 1) for fact, pol in facts):
+                    return False
+                seen = True
+            return seen
+        return False
+
     for site in prog.callers.get(compiler.qualname, []):
-        facts = [norm(t) for t, p in guards_of(site.caller.node, site.node) if p]
+        all_facts = guards_of(site.caller.node, site.node)
+        facts = [norm(t) if p else f"not {norm(t)}" for t, p in all_facts]
         skey = func_key(site.caller, site.node)
-        if facts and all("is_pragma" in f or f.split("[")[0] in ("actual_tokens",) or "actual_tokens" == f for f in facts):
+        if all_facts and all(p and pragma_guard(site.caller, t) for t, p in all_facts):
             rule.ok(skey, f"guarded by {facts}")
         else:
             rule.fail(skey, site.where, f"compile_pragmas is guarded by {facts}: pragmas of some documents are not compiled")
